@@ -154,6 +154,11 @@ theorem register_before_open_leaks :
     values are used as written (only string literals lose their quotes) -/
 theorem grammar_facts : F.schemaGrammarStrict = true ∧ F.unquoteOnlyStrings = true := by decide
 
+/-- … option values are taken as written (no stray blank, no octal), and what SQLite would refuse
+    to declare is refused before the storage is opened, so a rejected definition writes nothing
+    even where an open would have stored a merge (F59, F61) -/
+theorem option_facts : F.optionValuesAsWritten = true ∧ F.declarableCheckedBeforeOpen = true := by decide
+
 /-- non-vacuity: the README's own example is accepted as specified -/
 example :
     create F (some [.col "id" true [.primaryKey], .col "name" true [], .col "email" true [.notNull]])
